@@ -251,3 +251,41 @@ def class_fold(var, cls):
             return ast.Constant(value=dotted(node.comparators[0]).split(".")[-1] == cls.split(".")[-1])
         return None
     return fold
+
+
+def eval_under(test, facts):
+    """three-valued truth of `test` given facts {source text of an atom: bool}; understands not/and/or, `is not` / `not in`
+    as negations of `is` / `in`, and constants"""
+    if isinstance(test, ast.Constant) and isinstance(test.value, (bool, int)) and not isinstance(test.value, str):
+        return bool(test.value)
+    tx = unparse(test)
+    if tx in facts:
+        return facts[tx]
+    if isinstance(test, ast.UnaryOp) and isinstance(test.op, ast.Not):
+        v = eval_under(test.operand, facts)
+        return None if v is None else not v
+    if isinstance(test, ast.BoolOp):
+        vals = [eval_under(v, facts) for v in test.values]
+        if isinstance(test.op, ast.And):
+            if any(v is False for v in vals):
+                return False
+            return True if all(v is True for v in vals) else None
+        if any(v is True for v in vals):
+            return True
+        return False if all(v is False for v in vals) else None
+    if isinstance(test, ast.Compare) and len(test.ops) == 1:
+        flip = {ast.IsNot: ast.Is, ast.NotIn: ast.In, ast.NotEq: ast.Eq}
+        for neg, pos in flip.items():
+            if isinstance(test.ops[0], neg):
+                v = eval_under(ast.Compare(left=test.left, ops=[pos()], comparators=test.comparators), facts)
+                return None if v is None else not v
+    return None
+
+
+def feasible_under(path, facts):
+    """False when some condition taken on the path contradicts the facts"""
+    for t, pol in path.conds:
+        v = eval_under(t, facts)
+        if v is not None and v != pol:
+            return False
+    return True
